@@ -64,7 +64,8 @@ def run_one(it):
         eq.status_variables[10].value = 123
         eq.data_values.update({20: secsgem.gem.DataValue(20, "dv", var.U4, False)})
         eq.data_values[20].value = 77
-        eq.equipment_constants.update({30: secsgem.gem.EquipmentConstant(30, "ec", 0, 500, 50, "u", var.U4, False)})
+        eq.equipment_constants.update({30: secsgem.gem.EquipmentConstant(30, "ec", 0, 500, 50, "u", var.U4, False),
+                                       32: secsgem.gem.EquipmentConstant(32, "ec2", 0, 10, 5, "u", var.U4, False)})
         eq.alarms.update({40: secsgem.gem.Alarm(40, "al", "alarm text", 1, 140, 141)})
         eq.collection_events.update({100: secsgem.gem.CollectionEvent(100, "ce", [20]),
                                      101: secsgem.gem.CollectionEvent(101, "ce the host never subscribes", [20])})
@@ -189,6 +190,13 @@ def run_one(it):
             call(tag + "request_ec_after_set", lambda: host.request_ec(30).get(), [newv])
             call(tag + "set_ec_out_of_range", lambda: host.set_ec(30, var.U4(501)), 3)
             call(tag + "request_ec_unchanged", lambda: host.request_ec(30).get(), [newv])
+            # one request naming two constants: accepted as a whole, or refused as a whole (the valid one listed first)
+            call(tag + "set_ecs_both_valid", lambda: host.set_ecs([[30, var.U4(newv // 2 + 1)], [32, var.U4(7)]]), 0)
+            call(tag + "request_ecs_after_both", lambda: host.request_ecs([30, 32]).get(), [newv // 2 + 1, 7])
+            call(tag + "set_ecs_second_out_of_range", lambda: host.set_ecs([[30, var.U4(newv)], [32, var.U4(11)]]), 3)
+            call(tag + "request_ecs_after_refusal", lambda: host.request_ecs([30, 32]).get(), [newv // 2 + 1, 7])
+            call(tag + "equipment_holds_after_refusal", lambda: [eq.equipment_constants[30].value, eq.equipment_constants[32].value], [newv // 2 + 1, 7])
+            call(tag + "set_ec_restore", lambda: host.set_ec(30, var.U4(newv)), 0)
             call(tag + "list_ecs", lambda: [[x["ECID"], x["ECNAME"], x["ECMIN"], x["ECMAX"], x["ECDEF"]] for x in host.list_ecs([30]).get()],
                  [[30, "ec", 0, 500, 50]])
             call_pair([(tag + "concurrent_request_svs", lambda: host.request_svs([10]).get(), lambda: [eq.status_variables[10].value]),
@@ -347,7 +355,7 @@ def run(ctx: Ctx):
     ctx.rule = ("sessions = {host active, equipment active} x {host first, equipment first} x receive buffer {64 KiB, 64 B} x "
                 "disable/enable cycles {none, host, equipment, both} x thread schedule (fifo / random / PCT, optionally with wake-up latency "
                 "of the select thread or of application / protocol helper threads, or the enabling thread descheduled between the "
-                "statements of enable() / disable()); each session: 21 host calls + 3 concurrent ones compared with the "
+                "statements of enable() / disable()); each session: 27 host calls (incl. two-constant S2F15 requests, accepted and refused) + 3 concurrent ones compared with the "
                 "equipment's tables, 2 collection events (one triggered together with an event nobody subscribed to), remote command; non-trivial = distinct configurations that completed a session")
     ctx.assumptions += ["link latency is zero in these runs (segmentation by 64-byte socket buffers); schedule space sampled",
                         f"bound for reaching communication: {BOUND} virtual seconds"]
